@@ -127,6 +127,45 @@ def t2b_return_temp(body, whole):
     return out
 
 
+def t18_append_loop(body, whole):
+    """T18: ``x = []`` ; ``for T in IT: [if C: ...] x.append(E)``  ->  ``x = [E for T in IT if C ...]``  (adjacent statements; the loop
+    body is only the (guarded) append, x occurs nowhere in E / IT / C, the loop variables occur nowhere else in the function)."""
+    out = []
+    i = 0
+    while i < len(body):
+        s = body[i]
+        nxt = body[i + 1] if i + 1 < len(body) else None
+        done = False
+        if (isinstance(s, ast.Assign) and len(s.targets) == 1 and isinstance(s.targets[0], ast.Name) and isinstance(s.value, ast.List) and not s.value.elts
+                and isinstance(nxt, ast.For) and not nxt.orelse):
+            x = s.targets[0].id
+            inner = nxt.body
+            conds = []
+            while len(inner) == 1 and isinstance(inner[0], ast.If) and not inner[0].orelse:
+                conds.append(inner[0].test)
+                inner = inner[0].body
+            if (len(inner) == 1 and isinstance(inner[0], ast.Expr) and isinstance(inner[0].value, ast.Call) and chain(inner[0].value.func) == [x, 'append']
+                    and len(inner[0].value.args) == 1 and not inner[0].value.keywords):
+                elt = inner[0].value.args[0]
+                parts = [elt, nxt.iter] + conds
+                tv = {n.id for n in ast.walk(nxt.target) if isinstance(n, ast.Name)}
+                uses_x = any(isinstance(n, ast.Name) and n.id == x for p_ in parts for n in ast.walk(p_))
+                inside = sum(1 for n in ast.walk(nxt) if isinstance(n, ast.Name) and n.id in tv)
+                total = sum(1 for n in ast.walk(whole) if isinstance(n, ast.Name) and n.id in tv)
+                if not uses_x and inside == total and not any(isinstance(n, (ast.Yield, ast.YieldFrom, ast.Await)) for p_ in parts for n in ast.walk(p_)):
+                    comp = ast.ListComp(elt=elt, generators=[ast.comprehension(target=nxt.target, iter=nxt.iter, ifs=conds, is_async=0)])
+                    new = ast.Assign(targets=s.targets, value=comp)
+                    ast.copy_location(new, s)
+                    ast.copy_location(comp, nxt)
+                    out.append(new)
+                    i += 2
+                    done = True
+        if not done:
+            out.append(s)
+            i += 1
+    return out
+
+
 def t16_positive_test(body):
     """T16: ``if not c: A else: B``  ->  ``if c: B else: A``  (both arms present, the else arm not an elif chain)."""
     out = []
@@ -1025,6 +1064,7 @@ def normalize_function(model, func):
         text = ast.unparse(ast.Module(body=block, type_ignores=[]))
         block = t4_alias_call(block, text)
         block = t16_positive_test(block)
+        block = t18_append_loop(block, node)
         block = t1_ifexp_return(block)
         block = t2_sink_return(block)
         block = t2b_return_temp(block, node)
